@@ -45,11 +45,31 @@ def materialise(op, getter):
     object, a plain list for the reference model)"""
     out = None
     for key in ("d", "anchor", "v"):
-        if is_posof(op.get(key)):
+        tok = op.get(key)
+        if is_posof(tok):
             if out is None:
                 out = dict(op)
-            out[key] = getter(op[key]["posof"])
+            val = getter(tok["posof"])
+            wrap = tok.get("wrap")
+            if wrap == "list":      # [child.position]: a list wrapping a live view
+                val = [val]
+            elif wrap == "tuple":
+                val = (val,)
+            elif wrap == "rev":     # child.position[::-1]: another live view of the same buffer
+                val = val[::-1]
+            out[key] = val
     return out if out is not None else op
+
+
+def posof_token(rng, j, N_j):
+    """a {"posof": j} token, sometimes wrapped (the wrapped forms are still live views)"""
+    tok = {"posof": j}
+    r = rng.random()
+    if N_j == 1 and r < 0.3:
+        tok["wrap"] = rng.choice(["list", "tuple"])
+    elif N_j > 1 and r < 0.3:
+        tok["wrap"] = "rev"
+    return tok
 
 
 def gen_anchor(rng, nvec, alias=False):
@@ -304,9 +324,12 @@ def _exec_path_op(obj, op):
                 obj.position = _bad(op, "v", v)
             elif k == "set_orientation":
                 b = op.get("bad")
-                obj.orientation = b["value"] if b and b["field"] == "r" else orientation_value(op["r"])
+                obj.orientation = _badval(b["value"]) if b and b["field"] == "r" else orientation_value(op["r"])
             elif k == "reset_path":
                 obj.reset_path()
+            elif k == "iadd_position":
+                # augmented assignment: Python evaluates it as obj.position = obj.position.__iadd__(d)
+                obj.position += np.array(op["d"], dtype=float)
             else:
                 raise HarnessError("not a path op: " + k)
         return "ok"
@@ -316,24 +339,34 @@ def _exec_path_op(obj, op):
         return "raised:" + type(e).__name__
 
 
+def _badval(v):
+    """decode non-JSON values of rejection variants"""
+    if isinstance(v, dict) and "$np_zeros" in v:
+        return np.zeros(tuple(v["$np_zeros"]))
+    if isinstance(v, dict) and "$rot_empty" in v:
+        return R.from_quat(np.zeros((0, 4)))
+    return v
+
+
 def _bad(op, field, val):
     b = op.get("bad")
     if b and b["field"] == field:
-        return b["value"]
+        return _badval(b["value"])
     return val
 
 
 def _poison_rotate(name, args, kw, bad):
     f = bad["field"]
+    val = _badval(bad["value"])
     if f in ("anchor", "start", "degrees"):
-        kw[f] = bad["value"]
+        kw[f] = val
     elif f == "arg0":
-        args[0] = bad["value"]
+        args[0] = val
     elif f == "arg1":
         if len(args) > 1:
-            args[1] = bad["value"]
+            args[1] = val
         else:
-            args[0] = bad["value"]
+            args[0] = val
     return args, kw
 
 
@@ -353,6 +386,7 @@ def reject_variants(op):
         add("start", "x", "start_str")
         add("start", 1.5, "start_float")
         add("start", None, "start_none")
+        add("d", {"$np_zeros": [0, 3]}, "empty_0x3")
     elif k == "rotate":
         add("start", "x", "start_str")
         add("start", 0.5, "start_float")
@@ -360,9 +394,11 @@ def reject_variants(op):
         add("anchor", "abc", "anchor_str")
         add("anchor", [[[1.0, 2.0, 3.0]]], "anchor_ndim3")
         form = op["form"]
+        add("anchor", {"$np_zeros": [0, 3]}, "anchor_empty_0x3")
         if form == "rotation":
             add("arg0", [0.0, 0.0, 1.0], "not_rotation")
             add("arg0", "abc", "not_rotation_str")
+            add("arg0", {"$rot_empty": True}, "rotation_empty")
         elif form == "angax":
             add("arg1", [0.0, 0.0, 0.0], "zero_axis")
             add("arg1", "w", "axis_name")
@@ -370,6 +406,9 @@ def reject_variants(op):
             add("arg0", "abc", "angle_str")
             add("arg0", [[1.0, 2.0]], "angle_ndim2")
             add("degrees", "yes", "degrees_str")
+            add("arg0", 1e308, "angle_overflow")
+            add("arg1", [1e-170, 0.0, 0.0], "axis_underflow")
+            add("arg1", [1e160, 1e160, 0.0], "axis_overflow")
         elif form == "euler":
             add("arg1", "abq", "bad_seq")
             add("arg0", "abc", "angle_str")
@@ -380,6 +419,7 @@ def reject_variants(op):
             add("arg0", [[1.0, 0.0], [0.0, 1.0]], "matrix_2x2")
         elif form == "mrp":
             add("arg0", [1.0, 2.0], "mrp_shape2")
+            add("arg0", [1e160, 0.0, 0.0], "mrp_overflow")
         elif form == "quat":
             add("arg0", [0.0, 0.0, 0.0, 0.0], "zero_quat")
             add("arg0", [1.0, 2.0, 3.0], "quat_shape3")
@@ -387,9 +427,11 @@ def reject_variants(op):
         add("v", [1.0, 2.0], "shape2")
         add("v", "abc", "str")
         add("v", [[1.0, 2.0, 3.0, 4.0]], "shape_n4")
+        add("v", {"$np_zeros": [0, 3]}, "empty_0x3")
     elif k == "set_orientation":
         add("r", [0.0, 0.0, 0.0, 1.0], "not_rotation")
         add("r", "abc", "str")
+        add("r", {"$rot_empty": True}, "rotation_empty")
     return out
 
 
@@ -410,8 +452,8 @@ def apply_to_model(m, op):
         anchor = op.get("anchor")
         if is_selfpos(anchor):
             anchor = selfpos()
-        elif isinstance(anchor, np.ndarray):
-            anchor = anchor.tolist()
+        elif isinstance(anchor, (np.ndarray, tuple)):
+            anchor = np.array(anchor, dtype=float).tolist()
         if isinstance(anchor, (int, float)) and anchor == 0:
             anchor = [0.0, 0.0, 0.0]
         pb, pe = m.rotate(q, anchor, op.get("start", "auto"))
@@ -433,6 +475,10 @@ def apply_to_model(m, op):
     if k == "reset_path":
         m.reset()
         return ("reset",)
+    if k == "iadd_position":
+        P = np.array(m.P) + np.array(op["d"], dtype=float)
+        m.set_position(P.tolist())
+        return ("set", len(m))
     raise HarnessError(k)
 
 
